@@ -32,16 +32,20 @@ TECHNIQUE = ("fault enumeration on the on-disk cache (every/stratified truncatio
 RULE = ("one case = (small tree, fault) or (small tree, sequence fault-scan-fault-scan); faults: truncation of the cache file at a byte "
         "offset (all offsets in the thorough tier, stratified in quick), empty file, non-JSON texts, every key deleted at every level, "
         "every value replaced by each wrong JSON type, cache directory without the file / without CACHEDIR.TAG / without .gitignore, "
-        "interrupted write after k bytes with OSError(ENOSPC) or KeyboardInterrupt, interrupted directory creation; "
+        "interrupted write after k bytes with OSError(ENOSPC) or KeyboardInterrupt (simulated by wrapping Path.write_text) and REAL "
+        "interrupted writes (RLIMIT_FSIZE = k makes the operating system cut the scan's own cache write short) in four scenarios "
+        "(first scan, unchanged rescan, same-length edit, other edit); "
         "non-trivial = the faulted file differs from the valid cache; distinct = distinct (tree, fault)")
 ASSUMPTIONS = ["'complete, valid cache' is read as: the report file parses as JSON and equals the fresh-scan report; marker files missing "
                "after a fault are reported in the evidence, not judged",
                "faults that keep a structurally valid same-version cache with altered numbers are outside the property (see C09)"]
-BOUNDS = {"quick": dict(n=32, offsets=0, struct=1, crash=400, seq=160, kills=0), "thorough": dict(n=64, offsets=0, struct=1, crash=6000, seq=4000, kills=40)}
+BOUNDS = {"quick": dict(n=32, offsets=0, struct=1, crash=400, seq=160, kills=0, real=640),
+          "thorough": dict(n=64, offsets=0, struct=1, crash=6000, seq=4000, kills=40, real=12000)}
 EXHAUSTIVE = {"quick": True, "thorough": True}
 EXHAUSTIVE_SCOPE = {t: "every truncation offset of 3 small reports; all single-key deletions and single-value type replacements; "
                        "crash points, sequences and kills are sampled" for t in BOUNDS}
-MINIMUM = {"quick": {"monitor.recovery_scans": 5000, "faults.truncation": 3000, "faults.key_deleted": 150, "faults.wrong_type": 1200, "faults.interrupted_write": 250},
+MINIMUM = {"quick": {"monitor.recovery_scans": 5000, "faults.truncation": 3000, "faults.key_deleted": 150, "faults.wrong_type": 1200, "faults.interrupted_write": 250, "faults.real_interrupted_write": 400,
+                     "faults.real_interrupted_write.same_length_edit": 100},
            "thorough": {"monitor.recovery_scans": 20000, "faults.truncation": 3000, "faults.key_deleted": 150, "faults.wrong_type": 1200, "faults.interrupted_write": 4000}}
 PY = "/venv/bin/python"
 TREES = [
@@ -225,6 +229,65 @@ def crash_point(ctx, ti, files, rng, k_frac, target, exc_name):
         shutil.rmtree(root, ignore_errors=True)
 
 
+def py_function(name, n):
+    return f"def {name}(a, b):\n" + "".join(f"    v{k} = a + {k}\n" for k in range(n - 2)) + "    return a\n"
+
+
+SCENARIOS = ["first_scan", "unchanged_rescan", "same_length_edit", "other_edit"]
+
+
+def real_crash_point(ctx, scenario, k_frac, rng):
+    """The cache write of a REAL scan is cut short by the operating system: RLIMIT_FSIZE makes the write() that would grow the file
+    beyond k bytes fail like a full disk (SIGXFSZ ignored -> EFBIG), whatever strategy the code uses to write the file
+    (truncate-and-write, write-in-place, temp file + rename). Then the limit is lifted and a clean scan must recover."""
+    import resource
+    import signal
+
+    files = {"a.py": py_function("foo", 12) + "\n\n" + py_function("bar", 3), "lib/b.py": py_function("baz", 5)}
+    root = make_tree(files)
+    try:
+        if scenario != "first_scan":
+            err, _ = run_scan_command(root)
+            if err is not None:
+                raise err
+            old_len = len(open(cache_path(root)).read())
+            if scenario == "same_length_edit":
+                # foo grows from 12 to 45 lines: every number keeps its digit count, so the new document has the old length and a
+                # write that does not truncate first would leave new-prefix + old-suffix = possibly valid JSON with stale numbers
+                with open(os.path.join(root, "a.py"), "w") as f:
+                    f.write(py_function("foo", 45) + "\n\n" + py_function("bar", 3))
+            elif scenario == "other_edit":
+                with open(os.path.join(root, "a.py"), "w") as f:
+                    f.write(py_function("foo", 7) + "\n\n" + py_function("bar", 3) + "\n\n" + py_function("extra", 61))
+        full_len = len(json.dumps(fresh_doc(root), indent=2)) + 40
+        k = max(0, int(full_len * k_frac))
+        signal.signal(signal.SIGXFSZ, signal.SIG_IGN)
+        soft, hard = resource.getrlimit(resource.RLIMIT_FSIZE)
+        resource.setrlimit(resource.RLIMIT_FSIZE, (k, hard))
+        try:
+            err, _ = run_scan_command(root)
+        finally:
+            resource.setrlimit(resource.RLIMIT_FSIZE, (soft, hard))
+        label = f"real_crash:{scenario}:k={k}"
+        if err is None:
+            ctx.count("info.write_completed_below_limit")
+        else:
+            ctx.count("faults.real_interrupted_write")
+            ctx.count("faults.real_interrupted_write." + scenario)
+            ctx.distinct([scenario, k])
+        state = "absent"
+        if os.path.exists(cache_path(root)):
+            try:
+                json.loads(open(cache_path(root)).read())
+                state = "parses_as_json"
+            except Exception:
+                state = "not_json"
+        ctx.count("info.cache_state_after_real_crash." + state)
+        judge_recovery(ctx, root, {"real_crash": [scenario, k_frac]}, label)
+    finally:
+        shutil.rmtree(root, ignore_errors=True)
+
+
 def kill_case(ctx, ti, files, rng):
     """SIGKILL a real CLI scan at a random moment, then a clean scan"""
     root = make_tree(files)
@@ -287,6 +350,12 @@ def run(shard, ctx):
         ti = rng.randrange(len(TREES))
         target = rng.choice(["codelimit.json"] * 6 + ["CACHEDIR.TAG", ".gitignore"])
         crash_point(ctx, ti, TREES[ti], rng, rng.random(), target, rng.choice(["ENOSPC", "KeyboardInterrupt"]))
+    # real crash points: the OS cuts the write short (RLIMIT_FSIZE), stratified offsets per scenario
+    n_real = shard["real"] // shard["parts"] + 1
+    for i in range(n_real):
+        scenario = SCENARIOS[(i + shard["part"]) % len(SCENARIOS)]
+        frac = ((i * shard["parts"] + shard["part"]) % shard["real"] + rng.random()) / shard["real"]
+        real_crash_point(ctx, scenario, frac, rng)
     # sequences fault -> scan -> fault -> scan on one tree
     for i in range(shard["seq"] // shard["parts"] + 1):
         ti = rng.randrange(len(TREES))
@@ -321,6 +390,9 @@ def run(shard, ctx):
 
 def replay(case, ctx):
     ti = case["tree"]
+    if "real_crash" in case:
+        real_crash_point(ctx, case["real_crash"][0], case["real_crash"][1], rng_for(0, "c10r"))
+        return
     if "crash" in case:
         k_frac, target, exc_name = case["crash"]
         crash_point(ctx, ti, TREES[ti], rng_for(0, "c10r"), k_frac, target, exc_name)
